@@ -125,7 +125,6 @@ def run(ctx):
                     res.bad('InstrSeq.ty@MultiValue.0/' + tag, 'the type of a multi-value sequence must be reported exactly once by ' + tag)
             elif effs:
                 res.bad('InstrSeq/%s/spurious' % tag, 'a Simple sequence type reports operands')
-    check_drivers(F, res)
     check_driver_worlds(F, res)
     check_used_visitor(F, res)
     res.exhaustive = True
@@ -293,11 +292,19 @@ def check_drivers(F, res):
 
 
 def check_driver_worlds(F, res):
-    """every generic iteration of a driver issues its per-sequence and per-instruction events, whatever the
-    sequence or the instruction looks like (no condition other than `first entry` may suppress an event)"""
-    nop = Policy(effects=lambda p: (not p.startswith('std::') and not p.startswith('log::')) or 'Vec::push' in p, inline=lambda p: False)
+    """Both traversal drivers, decided on the worlds of one generic outer iteration with the helpers next to them looked
+    through (so a private enum / struct / function that a maintainer introduces does not matter):
+      * every sequence gets start_instr_seq, its own operands, and end_instr_seq exactly once;
+      * every instruction gets visit_instr and its operands exactly once;
+      * exactly the sequences owned by Block / Loop / IfElse are scheduled, consequent before alternative (LIFO);
+      * dfs_in_order leaves the instruction loop early only for an owner, and then saves (seq, index + 1) first."""
+    from heval import local_policy
     for drv, sfx in (('ir::traversals::dfs_in_order', ''), ('ir::traversals::dfs_pre_order_mut', '_mut')):
         d = drv.split('::')[-1]
+        if drv not in F.hir:
+            res.bad('driver/%s/missing' % d, 'traversal driver not found')
+            continue
+        nop = local_policy(F, drv, public_events=True, events=[r'Vec::push$'])
         try:
             ws = Evaluator(F, nop).run_fn(drv, [sym('visitor'), sym('func'), sym('start')])
         except EvalError as e:
@@ -305,14 +312,15 @@ def check_driver_worlds(F, res):
             continue
         bad = None
         n = 0
+        owners_ok = set()
         for w in ws:
             if w.outcome != 'return':
                 bad = 'a path of %s ends in %s' % (d, w.outcome)
                 continue
             var = [v[2] for k, v in w.assumptions if isinstance(v, tuple) and v and v[0] == 'ctor' and v[1] == 'ir::Instr']
             atoms = [(show(k[1]), v) for k, v in w.assumptions if isinstance(k, tuple) and k[0] == 'atom']
-            first = [v for t, v in atoms if t.endswith('Eq 0)') and ('.1' in t or 'index' in t)]
-            others = [(t, v) for t, v in atoms if not (t.endswith('Eq 0)') and ('.1' in t or 'index' in t))]
+            first = [v for t, v in atoms if t.endswith('Eq 0)')]
+            others = [(t, v) for t, v in atoms if not t.endswith('Eq 0)')]
             calls = [(e['callee'].split('::')[-1], len(e['loops']), e) for e in w.trace if e['kind'] == 'call']
             cnt = lambda name, depth: sum(1 for c, dp, e in calls if c == name and dp == depth)
             seqvisit = sum(1 for c, dp, e in calls if c == 'visit' + sfx and dp == 1)
@@ -322,9 +330,13 @@ def check_driver_worlds(F, res):
                     bad = '%s does not report every instruction and its operands exactly once%s' % (d, cond)
                     continue
             owner = bool(var) and var[0] in OWNERS
+            exits = [e for e in w.trace if e['kind'] == 'loop_exit' and len(e['loops']) == 2]
             if sfx:
                 if cnt('start_instr_seq_mut', 1) != 1 or seqvisit != 1 or cnt('end_instr_seq_mut', 1) != 1:
                     bad = '%s skips the start/end events or the sequence-level operands of a sequence%s' % (d, cond)
+                    continue
+                if exits:
+                    bad = '%s leaves the instruction loop early (%s): the rest of the sequence would never be visited' % (d, exits[0]['callee'])
                     continue
             else:
                 want_first = 1 if (first and first[0]) else 0
@@ -336,15 +348,22 @@ def check_driver_worlds(F, res):
                     bad = '%s issues end_instr_seq %d time(s) for a sequence whose current instruction is %s%s' % (
                         d, cnt('end_instr_seq', 1), var[0] if var else '?', cond)
                     continue
+                if exits and not owner:
+                    bad = ('%s leaves the instruction loop early (%s) for %s without saving the resumption point (seq, index + 1): '
+                           'the rest of the sequence would never be visited' % (d, exits[0]['callee'], var[0] if var else 'an instruction'))
+                    continue
             # what is scheduled, and in which (LIFO) order
             pushes = [show(e['args'][1]) for c, dp, e in calls if c == 'push']
             want = {'Block': ['.Block.0.seq'], 'Loop': ['.Loop.0.seq'], 'IfElse': ['.IfElse.0.alternative', '.IfElse.0.consequent']}
             kids = want.get(var[0], []) if var else []
+            allk = [k for ks in want.values() for k in ks]
+            is_kid = lambda p, k: k in p and not any(o in p for o in allk if o != k)
             if sfx:
-                okp = len(pushes) == len(kids) and all(p.endswith(k) for p, k in zip(pushes, kids))
+                okp = len(pushes) == len(kids) and all(is_kid(p, k) for p, k in zip(pushes, kids))
             elif owner:
-                okp = len(pushes) == len(kids) + 1 and pushes[0].endswith(' Add 1))') and '!.0, ' in pushes[0] \
-                    and all(p.endswith(k + ', 0)') for p, k in zip(pushes[1:], kids))
+                resume = pushes[0] if pushes else ''
+                okp = len(pushes) == len(kids) + 1 and ' Add 1)' in resume and not any(k in resume for k in allk) \
+                    and 'pop(' in resume and all(is_kid(p, k) and ' Add ' not in p for p, k in zip(pushes[1:], kids))
             else:
                 okp = not pushes
             if var and not okp:
@@ -353,12 +372,18 @@ def check_driver_worlds(F, res):
                                                    ' then '.join(k.split('.')[-1] for k in kids) or 'nothing',
                                                    [p[-48:] for p in pushes]))
                 continue
+            if owner:
+                owners_ok.add(var[0])
             n += 1
+        if not bad and owners_ok != set(OWNERS):
+            bad = '%s does not descend into the sequences owned by %s' % (d, sorted(set(OWNERS) - owners_ok))
         if bad:
             res.bad('driver/%s/events-unconditional' % d, bad)
         elif n:
             res.ok('driver/%s/events-unconditional' % d, {'driver': d, 'worlds': n,
                                                           'rule': 'per-sequence and per-instruction events in every world'})
+            for extra in ('per-instr', 'exits', 'children', 'if-order', 'seq-events'):
+                res.ok('driver/%s/%s' % (d, extra), None, nontrivial=True)
         else:
             res.error('%s: no analysable world' % drv)
 
